@@ -417,7 +417,8 @@ Inductive prog :=
 | PKwSep (k : str) (p : prog) | PParen (p : prog)
 | PStmt | PStmts | PWord
 | PGuard (p : prog) | PWithState (st : pstate) (p : prog) | PProjection (p : prog)
-| PCall.
+| PCall
+| PBlock.
 
 Definition truthy (v : val) : bool :=
   match v with VBool true => true | VOpt (Some _) => true | _ => false end.
@@ -444,6 +445,34 @@ Definition stmt_core : M val :=
 Definition stmts_probe (fuel : nat) : M val :=
   lookahead (existsb (fun t => token_eqb (tok t) (TP PLParen)))
             (ret VUnit) (l <- parse_statements fuel stmt_core ;; ret (VList l)).
+
+(** The block probe of the harness: [parse_statement] on
+      CREATE PROCEDURE <unquoted non-keyword word> AS BEGIN <statements over the COMMIT/END fragment> END
+    i.e. the only caller of [parse_statement_list(true)].  A no-op unless the five non-whitespace
+    tokens at the cursor are exactly that header (a bounded look-ahead: five [peek_nth_token]).
+    Under the header the route is fixed: [parse_statement] takes its depth guard and dispatches
+    on CREATE to [parse_create], every earlier test of which declines the token PROCEDURE;
+    [parse_create_procedure] = [parse_object_name] (one identifier, no period follows),
+    [parse_optional_procedure_parameters] (no parenthesis follows), AS, BEGIN, the block, END. *)
+Definition plain_word (t : token) : bool :=
+  match t with TWord _ None k => str_eqb k no_keyword | _ => false end.
+Definition block_header (t0 t1 t2 t3 t4 : twl) : bool :=
+  is_kw (s2l "CREATE") t0 && is_kw (s2l "PROCEDURE") t1 && plain_word (tok t2)
+  && is_kw (s2l "AS") t3 && is_kw (s2l "BEGIN") t4.
+Definition create_procedure (fuel : nat) : M val :=
+  next_token ;;; consume_token (TP PPeriod) ;;;   (* parse_object_name *)
+  consume_token (TP PLParen) ;;;                  (* parse_optional_procedure_parameters *)
+  expect_keyword (s2l "AS") ;;; expect_keyword (s2l "BEGIN") ;;;
+  l <- parse_statement_block fuel stmt_core ;;
+  expect_keyword (s2l "END") ;;; ret (VList l).
+Definition block_probe (fuel : nat) : M val :=
+  t0 <- peek_nth_token 0 ;; t1 <- peek_nth_token 1 ;; t2 <- peek_nth_token 2 ;;
+  t3 <- peek_nth_token 3 ;; t4 <- peek_nth_token 4 ;;
+  if block_header t0 t1 t2 t3 t4
+  then guard (next_token ;;;                          (* parse_statement: CREATE *)
+              parse_keyword (s2l "PROCEDURE") ;;;     (* parse_create *)
+              create_procedure fuel)
+  else ret VUnit.
 
 Definition word_elem : M val :=
   t <- next_token ;;
@@ -486,6 +515,7 @@ Section Denote.
     | PWithState st a => with_state st (denote_p self fuel a)
     | PProjection a => l <- projection fuel (denote_p self fuel a) ;; ret (VList l)
     | PCall => self
+    | PBlock => block_probe fuel
     end.
 
   Fixpoint denote_rec (fuel : nat) : M val :=
